@@ -65,7 +65,9 @@ pub fn owns(prop: &str, kind: &ViolationKind, msg: &str) -> bool {
     let from_call = msg.contains("clobbered by an external call");
     // (x86.rs: "value clobbered by an external call")
     match prop {
-        "C06" | "C07" | "C08" => matches!(kind, ViolationKind::WildJump | ViolationKind::Unencodable) || (*kind == ViolationKind::Poison && !from_call),
+        // an access outside the memory of the program is a fault on the real machine while the
+        // reference terminates normally: the behaviour is not preserved (it is C09's business as well)
+        "C06" | "C07" | "C08" => matches!(kind, ViolationKind::WildJump | ViolationKind::Unencodable | ViolationKind::OutOfBounds) || (*kind == ViolationKind::Poison && !from_call),
         "C09" => matches!(kind, ViolationKind::Heap | ViolationKind::OutOfBounds),
         "C10" => matches!(kind, ViolationKind::Footprint),
         "C13" => *kind == ViolationKind::Abi || (*kind == ViolationKind::Poison && from_call),
